@@ -19,6 +19,10 @@ use bitvec::{
 };
 use ethnum::{I256, U256};
 
+/// The number of bits in an EVM word, as a word, for comparison with shift
+/// amounts.
+const WORD_SIZE_BITS: U256 = U256::new(256);
+
 /// The type of data whose value is concretely known during symbolic execution.
 ///
 /// # Representation
@@ -286,8 +290,18 @@ impl KnownWord {
     /// Computes the signed right shift of `self` by `rhs`.
     #[must_use]
     pub fn sar(self, rhs: Self) -> Self {
-        // We need the value to be signed to make it an arithmetic shift
-        let result = self.value_le_signed() >> rhs.value_le();
+        // We need the value to be signed to make it an arithmetic shift. On the EVM
+        // a shift of 256 bits or more leaves only the sign fill.
+        let value = self.value_le_signed();
+        let result = if rhs.value_le() >= WORD_SIZE_BITS {
+            if value < I256::ZERO {
+                I256::MINUS_ONE
+            } else {
+                I256::ZERO
+            }
+        } else {
+            value >> rhs.value_le()
+        };
 
         // We are already LE, but need to turn it back into the unsigned internal rep
         KnownWord::from_le_signed(result)
@@ -402,7 +416,12 @@ impl std::ops::Shl<KnownWord> for KnownWord {
 
     /// Computes the left shift of `self` by `rhs`.
     fn shl(self, rhs: KnownWord) -> Self::Output {
-        KnownWord::from_le(self.value_le() << rhs.value_le())
+        // On the EVM a shift of 256 bits or more results in zero
+        if rhs.value_le() >= WORD_SIZE_BITS {
+            KnownWord::zero()
+        } else {
+            KnownWord::from_le(self.value_le() << rhs.value_le())
+        }
     }
 }
 
@@ -411,7 +430,12 @@ impl std::ops::Shr<KnownWord> for KnownWord {
 
     /// Computes the unsigned right shift of `self` by `rhs`.
     fn shr(self, rhs: KnownWord) -> Self::Output {
-        KnownWord::from_le(self.value_le() >> rhs.value_le())
+        // On the EVM a shift of 256 bits or more results in zero
+        if rhs.value_le() >= WORD_SIZE_BITS {
+            KnownWord::zero()
+        } else {
+            KnownWord::from_le(self.value_le() >> rhs.value_le())
+        }
     }
 }
 
